@@ -12,6 +12,7 @@ Kinds are abstract terms:
   ("type", id)                        a type definable with define_type (DEFTYPES)
 """
 import json
+import re
 import os
 import sys
 
@@ -288,7 +289,13 @@ def name_info(n):
         parts = v.split(".")
         if len(parts) == 3 and all(x.isdigit() for x in parts):
             ver = "<<" + ", ".join(str(int(x)) for x in parts) + ">>"
-    return f"[base |-> {tla_str(base)}, ver |-> {ver}, pre |-> {pre}, build |-> {build}]"
+    # fold: extern names are unique up to ASCII case (a kebab label `FOO` is the label `foo`);
+    # cls: "locator" names (url=<..>, hash, locked/unlocked dependency) may only be imported, "kindbound"
+    # names ([method]r.m, [constructor]r, [static]r.m) are only valid for functions of a matching shape
+    cls = "locator" if re.match(r"^(url|integrity|locked-dep|unlocked-dep|relative-url)=", n) else \
+          "kindbound" if n.startswith("[") else "plain"
+    return (f"[base |-> {tla_str(base)}, ver |-> {ver}, pre |-> {pre}, build |-> {build}, "
+            f"fold |-> {tla_str(n.lower())}, cls |-> {tla_str(cls)}]")
 
 
 def lib_shape():
@@ -396,6 +403,23 @@ def lib_dup():
     }
 
 
+def lib_extern():
+    """extern names: names that differ in case only (a kebab label may be written in upper case and still
+    is the same label), locator names (importable, not exportable) and a name bound to a kind of item"""
+    return {
+        "name": "extern",
+        "pkgs": {
+            "pa": {"name": "test:pa", "version": None, "imports": [("k", fA)], "exports": [("out", fA)]},
+        },
+        "kinds": {"fA": fA},
+        "import_names": ["k", "K", "url=<https://x>", "[method]r.m"],
+        "export_names": ["e1", "E1", "url=<https://x>"],
+        "def_names": ["t1", "T1", "E1", "url=<https://x>"],
+        "valid_names": ["k", "K", "e1", "E1", "t1", "T1", "url=<https://x>", "[method]r.m"],
+        "deftypes": {"tb": ("value", []), "td": ("value", ["tb"])},
+    }
+
+
 def lib_ver2():
     """four users of one compatibility track: two of them under the same lower name with different
     exports, one under a higher version, one under that version with build metadata"""
@@ -454,7 +478,7 @@ def lib_wac():
     }
 
 
-LIBS = {"core": lib_core, "ver": lib_ver, "shape": lib_shape, "plug": lib_plug, "det": lib_det, "wac": lib_wac, "dup": lib_dup, "ver2": lib_ver2}
+LIBS = {"core": lib_core, "ver": lib_ver, "shape": lib_shape, "plug": lib_plug, "det": lib_det, "wac": lib_wac, "dup": lib_dup, "ver2": lib_ver2, "extern": lib_extern}
 
 
 def emit(lib):
